@@ -53,7 +53,9 @@ s = open(p).read()
 marker = "\n### 9.5 Seeded property-breaking changes"
 if marker in s:
     i = s.index(marker)
-    j = s.find("\n### 9.6", i)
+    j = s.find("\n### 9.5a", i)
+    if j < 0:
+        j = s.find("\n### 9.6", i)
     s = s[:i] + text + (s[j:] if j >= 0 else "")
 else:
     s = s + text
